@@ -44,16 +44,16 @@ CHECKS = {
     "C12": ("exploration", "round-trip monitors over generated values per store domain and mount kind",
             "Held on the sampled values: read-after-write equal with identical types for every bundled store, direct and mounted; modified time None exactly before the first write and non-decreasing.",
             "values from each store's documented domain", "3/C12"),
-    "C13": ("exploration", "identity-level structural snapshots of Plan/Registry before vs after every operation kind; concurrent runs vs reference",
+    "C13": ("exploration", "identity-level structural snapshots of Plan/Registry (nodes, scopes, edges, entries, and a fingerprint of every other attribute) before vs after every operation kind; concurrent runs vs reference; building on copies",
             "Held on the sampled operations (run with every outcome, dry_run, render, concurrent runs, copy mutations): the caller's Plan and Registry snapshots were identical before and after; concurrent runners returned the reference value.",
             "snapshots compare identities of nodes, edge keys, RegistryValues, stores and stack frames", "3/C13"),
     "C15": ("exploration", "online trace-specification checker on a recording ProgressObserver + independent execution counters (plain, registry, dry, failing-member, flaky-notification and really interrupted runs)",
             "Held on the sampled runs: enter/exit bracketing, totals before running, per-thread/per-scope balance, completed==total after success, run/stale totals equal to independently counted executions, composite members received identical per-thread sequences.",
             "recording observer stamps under its own lock; scope = user scope + fully qualified function name", "3/C15"),
-    "C16": ("exploration", "weak-reference liveness monitor after gc.collect() at call starts and at logically quiescent states",
+    "C16": ("exploration", "weak-reference liveness monitor after gc.collect() at call starts, inside completed notifications and at logically quiescent states; release of a result with several consumers finishing together under single-preemption enumeration (worker held at every instruction of run_physical's and the graph runner's bookkeeping)",
             "Held on the sampled successful runs: every result whose consumers had all been fully processed (and that is not part of the output) was dead at the next checkpoint; everything was dead after run returned.",
             "harness keeps only ids and weakrefs; consumers followed through implicit gather nodes", "3/C16"),
-    "C17": ("fault_enumeration", "real SIGINT (pthread_kill) at every call index + gate/quiescence protocol deciding 'interrupt handled' logically; thread census; deadlock detector; C08/C03/C05 oracles on the post-interrupt state",
+    "C17": ("fault_enumeration", "real SIGINT (pthread_kill) at every call index + gate/quiescence protocol deciding 'interrupt handled' logically; strict thread census at the moment run raises; deadlock detector and bounded-progress livelock criterion for displays; C08/C03/C05 oracles on the post-interrupt state",
             "For each generated case every call index (start / steady-state / end position; quick tier: first, last and a seeded sample) received a real SIGINT: run raised KeyboardInterrupt, nothing started after the interrupt was proven handled, in-flight calls completed, all threads exited, observer exited once, stores repairable.",
             "CPython default SIGINT handler; Linux /proc thread states", "3/C17"),
     "C18": ("exploration", "out-of-date oracle on epoch seconds vs the run's rebuilt set, per process time zone and datetime representation",
@@ -62,7 +62,7 @@ CHECKS = {
     "C19": ("exploration", "sys._getframe chain captured on the creating source line vs CallError.call.stack_frame and the rendered message, over generated builder modules",
             "Held on the sampled builders (every kind of symbolic call, depths below/at/above the limit, helpers, both failure phases): the failing call is named, its symbolic traceback equals the captured frames with the truncation marker exactly when more exist, and the message lists them outermost first.",
             "capture helper and uberjob call share one source line; depth limit read from the code", "3/C19"),
-    "C20": ("exploration", "generated legal notification sequences with a virtual clock driven into the bundled observers; render-exception, final-rendering and elapsed-sum monitors",
+    "C20": ("exploration", "generated legal notification sequences with a virtual clock driven into the bundled observers; render-exception, final-rendering (counts, attributed-time strings against a reference formatter, IPython display call and widget tree) and elapsed-sum monitors; displays left with error / interrupt exit info",
             "Held on the sampled sequences over arbitrary hashable scopes: no rendering raised (direct or in the update thread), the last console line / HTML document / widget label per scope shows the final counts, attributed elapsed time sums to the busy virtual time.",
             "virtual clock substituted for the module's time; ipywidgets importable", "3/C20"),
     "C14": ("exploration", "event-log monitor during dry runs + differential execution of the returned physical plan vs the real run from a restored state",
